@@ -84,6 +84,12 @@ HARNESS(harness_alloc_1) { body_alloc(1); }
 HARNESS(harness_alloc_7) { body_alloc(7); }
 HARNESS(harness_alloc_8) { body_alloc(8); }
 HARNESS(harness_alloc_13) { body_alloc(13); }
+HARNESS(harness_alloc_5) { body_alloc(5); }
+HARNESS(harness_alloc_16) { body_alloc(16); }
+HARNESS(harness_alloc_21) { body_alloc(21); }
+HARNESS(harness_alloc_24) { body_alloc(24); }
+HARNESS(harness_alloc_29) { body_alloc(29); }
+HARNESS(harness_alloc_32) { body_alloc(32); }
 
 /* H3: realloc of concrete sizes; the underlying realloc moves the block or fails */
 static void body_realloc(const uint64_t oldsz, const uint64_t newsz, const uint32_t sep) {
